@@ -38,39 +38,26 @@ def str_to_num(s: str, fmt: str) -> Any[float, int]:
     if not isinstance(s, str):
         s = str(s)
 
-    sexagesimal_match = re.match(r"^%(\d*)\.(\d+)m$", fmt)
-    if sexagesimal_match:
-        fraction_length = int(sexagesimal_match.groups()[1])
-        assert fraction_length in (
-            3,
-            5,
-            6,
-            8,
-            9,
-        ), f"Invalid sexagesimal number format: {fmt}"
+    s = s.strip()
+    num_match = re.match(
+        r"^(-?)(\d+\.?\d*|\.\d+)(?:[:; ](\d+\.?\d*))?(?:[:; ](\d+\.?\d*))?$",
+        s,
+        re.ASCII,
+    )
+    if not num_match:
+        raise ValueError("Cannot convert string to number")
 
-        regexps = {
-            3: r"^(\-?\d+)[:; ](\d{2})$",
-            5: r"^(\-?\d+)[:; ](\d{2}\.\d+)$",
-            6: r"^(\-?\d+)[:; ](\d{2})[:; ](\d{2})$",
-            8: r"^(\-?\d+)[:; ](\d{2})[:; ](\d{2}.\d+)$",
-            9: r"^(\-?\d+)[:; ](\d{2})[:; ](\d{2}.\d+)$",
-        }
+    sign, wholes, minutes, seconds = num_match.groups()
 
-        num_match = re.match(regexps[fraction_length], s)
-        if not num_match:
-            raise ValueError("Cannot convert string to number")
-        num_match_groups = num_match.groups()
-        wholes = num_match_groups[0]
-        minutes = num_match_groups[1]
-        seconds = num_match_groups[2] if fraction_length in (6, 8, 9) else 0
+    if minutes is None:
+        # plain integer or decimal text
+        if "." in s:
+            return float(s)
+        return int(s)
 
-        return float(wholes) + (float(minutes) / 60) + (float(seconds) / 3600)
-
-    if "." in s:
-        return float(s)
-
-    return int(s)
+    # sexagesimal text: the sign applies to the whole magnitude
+    magnitude = float(wholes) + (float(minutes) / 60) + (float(seconds or 0) / 3600)
+    return -magnitude if sign else magnitude
 
 
 def num_to_str(n: Optional[float], fmt: str) -> Optional[str]:
@@ -82,26 +69,31 @@ def num_to_str(n: Optional[float], fmt: str) -> Optional[str]:
         fraction_length = int(sexagesimal_match.groups()[1])
         assert fraction_length in (3, 5, 6, 8, 9)
 
-        w = math.floor(n)
-        m = (n - w) * 60
+        # number of units of the last rendered place in one whole (degree / hour)
+        units_per_whole = {3: 60, 5: 600, 6: 3600, 8: 36000, 9: 360000}[
+            fraction_length
+        ]
+        # round once, on the magnitude, so that carries propagate (59.6" -> 1:00)
+        # and the sign applies to the whole sexagesimal number
+        units = int(round(abs(n) * units_per_whole))
+        sign = "-" if n < 0 and units > 0 else ""
+        w, rest = divmod(units, units_per_whole)
 
         if fraction_length == 3:
-            return f"{w}:{m:02.0f}"
+            return f"{sign}{w}:{rest:02d}"
 
         if fraction_length == 5:
-            return f"{w}:{m:04.1f}"
-
-        mf = math.floor(m)
-        s = (m - mf) * 60
-        m = mf
+            return f"{sign}{w}:{rest // 10:02d}.{rest % 10:d}"
 
         if fraction_length == 6:
-            return f"{w}:{m:02d}:{s:02.0f}"
+            return f"{sign}{w}:{rest // 60:02d}:{rest % 60:02d}"
 
         if fraction_length == 8:
-            return f"{w}:{m:02d}:{s:04.1f}"
+            m, s = divmod(rest, 600)
+            return f"{sign}{w}:{m:02d}:{s // 10:02d}.{s % 10:d}"
 
         if fraction_length == 9:
-            return f"{w}:{m:02d}:{s:05.2f}"
+            m, s = divmod(rest, 6000)
+            return f"{sign}{w}:{m:02d}:{s // 100:02d}.{s % 100:02d}"
 
-    return fmt % n
+    return (fmt % n).strip()
